@@ -4,6 +4,8 @@
 //   node ::= ( ((id accept)..) ((pattern template)..) ((pattern node)..) pk pid )
 //   extra log entries: (30 (30 id)) middleware ran | (30 (31 id pathUtf8)) process() ran
 #include <QCoreApplication>
+#include <memory>
+#include <vector>
 #include <QMap>
 #include <QPointer>
 #include <QRegExp>
@@ -22,7 +24,7 @@ using namespace QHttpEngine;
 Val headersVal(const Socket::HeaderMap &h);
 
 namespace {
-struct Log { Val v = Val::List(); };
+struct Log { Val v = Val::List(); Val *cur = &v; };      // the instrumented objects write to *cur
 
 class InstrMiddleware : public Middleware
 {
@@ -31,7 +33,7 @@ public:
     InstrMiddleware(Log *log, int id, int flag, QObject *parent) : Middleware(parent), mLog(log), mId(id), mFlag(flag) {}
     bool process(Socket *socket) override
     {
-        mLog->v.add(Val::List({Val::Int(30), Val::List({Val::Int(30), Val::Int(mId)})}));
+        mLog->cur->add(Val::List({Val::Int(30), Val::List({Val::Int(30), Val::Int(mId)})}));
         bool accept = mFlag == 0 ? false : (mFlag == 2 ? socket->headers().contains("X-Pass") : true);
         if (!accept) {
             // refusal style by id: a complete 403, nothing at all, or a fragment of its own with the connection left open
@@ -52,7 +54,7 @@ public:
 protected:
     void process(Socket *socket, const QString &path) override
     {
-        mLog->v.add(Val::List({Val::Int(30), Val::List({Val::Int(31), Val::Int(mId), Val::Str(path)})}));
+        mLog->cur->add(Val::List({Val::Int(30), Val::List({Val::Int(31), Val::Int(mId), Val::Str(path)})}));
         if (mKind == 1) { socket->write("ok"); socket->close(); }
         else if (mKind == 2) { }
         else socket->writeError(Socket::InternalServerError);
@@ -77,17 +79,25 @@ Handler *build(const Val &n, Log *log, QObject *parent)
 }
 }
 
-// one connection driven by an op schedule against [server]
-void runConnectionOn(Server *server, Val &log, const Val &ops)
-{
-    SimTcp *tcp = new SimTcp;
-    tcp->onWrite = [&log](const QByteArray &b) { log.add(Val::List({Val::Int(5), Val::Bytes(b)})); };
-    tcp->onClose = [&log]() { log.add(Val::List({Val::Int(6)})); };
-    QPointer<SimTcp> tcpGuard(tcp);
+// one connection driven by an op schedule against [server]; steppable so that several connections can be interleaved
+struct ConnRunner {
+    Server *server;
+    Val *logp;
+    SimTcp *tcp;
+    QPointer<SimTcp> tcpGuard;
     QPointer<Socket> sock;
-    auto avail = [&sock]() -> qint64 { return (sock && sock->isOpen()) ? sock->bytesAvailable() : -1; };
     long long opIndex = 0;
-    for (auto &op : ops.l) {
+
+    ConnRunner(Server *srv, Val *log) : server(srv), logp(log), tcp(new SimTcp), tcpGuard(tcp)
+    {
+        Val *l = logp;
+        tcp->onWrite = [l](const QByteArray &b) { l->add(Val::List({Val::Int(5), Val::Bytes(b)})); };
+        tcp->onClose = [l]() { l->add(Val::List({Val::Int(6)})); };
+    }
+    qint64 avail() const { return (sock && sock->isOpen()) ? sock->bytesAvailable() : -1; }
+    void step(const Val &op)
+    {
+        Val &log = *logp;
         log.add(Val::List({Val::Int(20), Val::Int(opIndex++)}));
         switch (op.at(0).asInt()) {
         case 0: if (sock) { if (tcpGuard) tcp->feed(op.at(1).asBytes()); } else if (tcpGuard) tcp->queue(op.at(1).asBytes()); break;
@@ -102,27 +112,39 @@ void runConnectionOn(Server *server, Val &log, const Val &ops)
                 for (Socket *x : server->d->findChildren<Socket *>()) if (!before.contains(x)) s = x;
                 if (!s) throw std::runtime_error("nosocket");
                 sock = s;
-                QObject::connect(s, &Socket::headersParsed, [&log, s, avail]() {
+                Val *l = logp;
+                ConnRunner *self = this;
+                QObject::connect(s, &Socket::headersParsed, [l, s, self]() {
                     Val q = Val::List();
                     auto qs = s->queryString();
                     for (auto i = qs.constBegin(); i != qs.constEnd(); ++i) q.add(Val::List({Val::Str(i.key()), Val::Str(i.value())}));
-                    log.add(Val::List({Val::Int(8), Val::Int(int(s->method())), Val::Bytes(s->rawPath()), Val::Str(s->path()), q,
-                                         headersVal(s->headers()), Val::Int(s->contentLength())}));
-                    log.add(Val::List({Val::Int(0), Val::Int(avail())}));
+                    l->add(Val::List({Val::Int(8), Val::Int(int(s->method())), Val::Bytes(s->rawPath()), Val::Str(s->path()), q,
+                                       headersVal(s->headers()), Val::Int(s->contentLength())}));
+                    l->add(Val::List({Val::Int(0), Val::Int(self->avail())}));
                 });
-                QObject::connect(s, &Socket::readyRead, [&log, avail]() { log.add(Val::List({Val::Int(1), Val::Int(avail())})); });
-                QObject::connect(s, &Socket::readChannelFinished, [&log, avail]() { log.add(Val::List({Val::Int(2), Val::Int(avail())})); });
-                QObject::connect(s, &Socket::bytesWritten, [&log](qint64 n) { log.add(Val::List({Val::Int(3), Val::Int(n)})); });
-                QObject::connect(s, &Socket::disconnected, [&log]() { log.add(Val::List({Val::Int(9)})); });
+                QObject::connect(s, &Socket::readyRead, [l, self]() { l->add(Val::List({Val::Int(1), Val::Int(self->avail())})); });
+                QObject::connect(s, &Socket::readChannelFinished, [l, self]() { l->add(Val::List({Val::Int(2), Val::Int(self->avail())})); });
+                QObject::connect(s, &Socket::bytesWritten, [l](qint64 n) { l->add(Val::List({Val::Int(3), Val::Int(n)})); });
+                QObject::connect(s, &Socket::disconnected, [l]() { l->add(Val::List({Val::Int(9)})); });
             }
             break;
         case 5: if (tcpGuard) tcp->peerDrop(); break;
         default: throw std::runtime_error("badcase");
         }
     }
-    // the connection goes away: the HTTP socket owns the transport once constructed
-    if (sock) delete sock.data(); else if (tcpGuard) delete tcp;
-    QCoreApplication::sendPostedEvents(nullptr, QEvent::DeferredDelete);
+    void finish()
+    {
+        // the connection goes away: the HTTP socket owns the transport once constructed
+        if (sock) delete sock.data(); else if (tcpGuard) delete tcp;
+        QCoreApplication::sendPostedEvents(nullptr, QEvent::DeferredDelete);
+    }
+};
+
+void runConnectionOn(Server *server, Val &log, const Val &ops)
+{
+    ConnRunner r(server, &log);
+    for (auto &op : ops.l) r.step(op);
+    r.finish();
 }
 
 static Val run_srv(const Val &c)
@@ -154,6 +176,36 @@ static Val run_srvm(const Val &c)
     return log.v;
 }
 
+// several connections to ONE server, their operations interleaved by [schedule] (a list of connection indices: that
+// connection performs its next operation); the instrumented handlers log into the log of the connection that is acting.
+//   case ::= ( schedule ( tree conns oracle meta ) )     obs: as srvm (per-connection logs behind (21 i) markers)
+static Val run_srvi(const Val &c)
+{
+    const Val &inner = c.at(1);
+    Log log;
+    QObject scope;
+    Server *server = new Server(&scope);
+    if (inner.at(0).size()) server->setHandler(build(inner.at(0), &log, &scope));
+    size_t n = inner.at(1).l.size();
+    std::vector<Val> logs(n, Val::List());
+    std::vector<std::unique_ptr<ConnRunner>> rs;
+    std::vector<size_t> cursor(n, 0);
+    for (size_t i = 0; i < n; ++i) rs.emplace_back(new ConnRunner(server, &logs[i]));
+    auto act = [&](size_t i) {
+        if (cursor[i] >= inner.at(1).l[i].l.size()) return;
+        log.cur = &logs[i];             // whatever the handler tree notes now belongs to the connection that is acting
+        rs[i]->step(inner.at(1).l[i].l[cursor[i]++]);
+    };
+    for (auto &iv : c.at(0).l) { qint64 i = iv.asInt(); if (i < 0 || size_t(i) >= n) throw std::runtime_error("badcase"); act(size_t(i)); }
+    for (size_t i = 0; i < n; ++i) while (cursor[i] < inner.at(1).l[i].l.size()) act(i);
+    for (auto &r : rs) r->finish();
+    delete server;
+    QCoreApplication::sendPostedEvents(nullptr, QEvent::DeferredDelete);
+    Val out = Val::List();
+    for (size_t i = 0; i < n; ++i) { out.add(Val::List({Val::Int(21), Val::Int(qint64(i))})); for (auto &e : logs[i].l) out.add(e); }
+    return out;
+}
+
 // oracle: (pattern path) -> (matched restUtf8 (cap..))
 static Val run_rxprobe(const Val &c)
 {
@@ -169,5 +221,6 @@ void reg_srv()
 {
     registerFamily("srv", run_srv);
     registerFamily("srvm", run_srvm);
+    registerFamily("srvi", run_srvi);
     registerFamily("rxprobe", run_rxprobe);
 }
